@@ -50,6 +50,7 @@ inductive LErr
   | ruleWithoutExample (pos : Nat)       -- 803
   | ruleForSeveralNode (pos : Nat)       -- 804
   | duplicateKey (pos : Nat)             -- 402
+  | invalidName (pos : Nat)              -- 701: a key shortcut without a name (bare `@`)
   | internal (why : String)              -- a Go panic with a string (unexpected lexical event)
   deriving DecidableEq, Repr
 
@@ -132,7 +133,8 @@ def grow (src : Array UInt8) (st : St) (i : Nat) (e : Ev) : M (St × Option Nat 
         | .keyE | .ksE =>
           let isShort := e.ty == .ksE
           let k := (e.b, e.e, isShort)
-          if n.keys.any (fun k' => keyText src k' == keyText src k) then throw (.duplicateKey e.b)
+          if isShort && !(e.b < e.e) then throw (.invalidName e.b)    -- `IsUserTypeName` needs a name byte after `@`
+          else if n.keys.any (fun k' => keyText src k' == keyText src k) then throw (.duplicateKey e.b)
           else pure (updNode st i (fun n => { n with keys := n.keys ++ [k] }), some i, false)
         | .valB => pure (updNode st i (fun n => { n with waiting := true }), some i, false)
         | .objE => pure (st, n.parent, false)
@@ -273,6 +275,7 @@ def showLErr : LErr → String
   | .ruleWithoutExample p => s!"ERR 803 {p}"
   | .ruleForSeveralNode p => s!"ERR 804 {p}"
   | .duplicateKey p => s!"ERR 402 {p}"
+  | .invalidName p => s!"ERR 701 {p}"
   | .internal w => s!"PANIC {w}"
 
 /-- `loader.doLoad`: the loader consumes every lexical event as soon as `Scanner.Next()` delivers it, so an
